@@ -774,11 +774,12 @@ fn gate_battery<G: crate::gates::gate::Gate<F, D>>(tag: &str, mk: impl Fn() -> G
     let gate = mk();
     let (nw, nc, ncons) = (gate.num_wires(), gate.num_constants(), gate.num_constraints());
     let pih = HashOut::<F>::rand();
-    // (1) extension evaluator vs base/packed batch evaluator on a batch of 5 rows (random and boundary values), declared count
-    let batch = 5usize;
+    // (1) extension evaluator vs base/packed batch evaluator on a batch of 19 rows (random and boundary values; 19 = packed chunks + leftovers for the
+    // packing widths 1, 4 and 8 of the scalar, AVX2 and AVX-512 builds), declared count
+    let batch = 19usize;
     let lat = [F::ZERO, F::ONE, F::NEG_ONE, F::from_canonical_u64(0xFFFF_FFFF), F::from_canonical_u64(1 << 32)];
-    let rows_w: Vec<Vec<F>> = (0..batch).map(|b| (0..nw).map(|k| if b == 0 { lat[k % 5] } else { F::rand() }).collect()).collect();
-    let rows_c: Vec<Vec<F>> = (0..batch).map(|b| (0..nc).map(|k| if b == 0 { lat[(k + 2) % 5] } else { F::rand() }).collect()).collect();
+    let rows_w: Vec<Vec<F>> = (0..batch).map(|b| (0..nw).map(|k| if b % 9 == 0 { lat[(k + b) % 5] } else { F::rand() }).collect()).collect();
+    let rows_c: Vec<Vec<F>> = (0..batch).map(|b| (0..nc).map(|k| if b % 9 == 0 { lat[(k + b + 2) % 5] } else { F::rand() }).collect()).collect();
     let flat_w: Vec<F> = (0..nw).flat_map(|k| (0..batch).map(|b| rows_w[b][k]).collect::<Vec<_>>()).collect();
     let flat_c: Vec<F> = (0..nc).flat_map(|k| (0..batch).map(|b| rows_c[b][k]).collect::<Vec<_>>()).collect();
     *cases += 1;
